@@ -8,6 +8,10 @@ CLAIMED = {
    technique="TLA+ decision module Handshake.tla (Decide vs. the property's WellFormed, checked by TLC on all 1.3 M class pairs); TLC-exported class table concretised and run through the real Client.Start with a scripted runner; every observation judged by TLC (TraceHandshake.tla)",
    text="TLC checks on every canonical (line class, client config class) pair that the code-shaped decision procedure accepts exactly the lines the property calls well-formed and reports the line's own protocol/network. TLC's exported table is then concretised (several byte-level spellings per class) and fed through the real Client.Start with an in-memory runner; TLC judges each observed outcome (ok/err, reported protocol, network, address, negotiated version, panic, latency against the start timeout, runner killed on error) against Decide and the property predicates. All lines with fewer than four fields, all lines some config accepts and the lines one field away from them are always included (all of their configs in the thorough tier).",
    note="Trusted: the concretiser (class -> bytes) and Go's net.Resolve*Addr as the meaning of 'resolvable'. Within a class the concrete spellings are sampled. 'Dialable' is read as non-nil and well-formed, not as 'something listens'."),
+ "C02": dict(cat="model_checking", design="§6 C02, §4.1",
+   technique="TLA+ module Versions.tla (Announce written as the code's scan; the property's clauses as invariants, TLC over all 14,400 configurations); real plugin binary alone and real Client/plugin pairs run on the case table; every observation judged by TLC (TraceVersions.tla)",
+   text="TLC checks for every host set, plugin set, per-version wire protocol, gRPC factory and list/no-list combination over versions 0..3 that the code-shaped scan announces the highest common version (else the lowest), with that set's protocol, and that acceptance implies a version both sides have. The same cases are run on the real code: the plugin binary alone with raw PLUGIN_PROTOCOL_VERSIONS values (duplicates, unsorted, partly invalid, empty, absent) whose handshake line is parsed, and real Client/plugin pairs where NegotiatedVersion, the version tag of the stub the host built and the tag answered by the dispensed implementation in the plugin must all equal the highest common version, or Start must fail with the incompatible-version error and the process be gone. TLC judges each observation.",
+   note="Versions range over 0..3; one plugin per set. Thorough enumerates all 225 set pairs (x3 random forms); quick all pairs with >= 2 common versions plus a sample."),
  "C06": dict(cat="model_checking", design="§6 C06, §4.3",
    technique="TLA+ spec MuxBroker.tla checked by TLC; real brokers driven in a synctest bubble under a gate controller; every recorded trace validated by TLC against TraceMux.tla",
    text="TLC exhaustively checks routing, ack matching, close-once, no wedge and in-window success on MuxBroker.tla for small call sets (all interleavings, fully asynchronous and timed variants). The two real MuxBrokers are then driven through seeded call sets and schedules (controller-forced gate orders, holds, lag, walks through TLC's state graph) in virtual time, and each recorded event trace (hook points, call results, the token actually received on each accepted connection) must be a behaviour of the spec with all invariants holding at every step.",
